@@ -12,6 +12,11 @@ Reading guide
   transactions, i.e. ONE transaction for an injective index (`indexSince` caps `maxBulkSize` there, because
   the previous row version is looked up as of the first transaction of the bulk) and up to `B` otherwise.
   Every KVT owns a copy of its key; `indexBulkCap` is the indexer with the pre-allocated `_kvs` buffer.
+* COMPACTION (Index/Compaction.lean): `CompactIndex` dumps a snapshot root (ts `s`) while the indexer goes on
+  (live ts `t ≥ s`), restarts the index from the dump — `reopenDump dump c`, `c` = the ts the dump claims in its
+  TIMESTAMP file — and the indexer resumes with `pending ts log` (`indexSince(Ts()+1)`).  The refinement survives iff
+  the claim does not exceed what the dump covers: `compaction_restart_preserves_refinement` (`c = s`, what
+  `fullDump` writes), `restart_preserves_refinement_of_claim_le`, `restart_with_overclaimed_ts_loses_transactions`.
 * The model is the code as it stands after the repairs of the defects this property found (key aliasing
   across the transactions of a bulk, lookup at the bulk start, tombstone without the deleted flag, `_kvs`
   overrun, `Snapshot.History` revisions — see `known_findings.json`, section `fixed`).  The harness still
@@ -22,6 +27,8 @@ import ImmuModel.Gen.C04
 import ImmuModel.Index.Proofs.Refine
 import ImmuModel.Index.Proofs.Reads
 import ImmuModel.Index.Proofs.Injective
+import ImmuModel.Index.Compaction
+import ImmuModel.Index.Proofs.Compaction
 
 namespace ImmuModel.Props.C04
 open ImmuModel ImmuModel.Index.L
@@ -204,6 +211,71 @@ theorem indexBulkCap_eq_of_room (cap : Nat) (sp : Spec) (env : Env) (tr : Tree I
     indexBulkCap cap sp env tr txs = indexBulk sp env tr txs :=
   InjectiveAux.indexBulkCap_eq cap sp env tr txs h
 
+/-! ### compaction interleaved with the indexer -/
+
+/-- **Compaction + restart preserves index = log.**  `dump` is the index as of the dumped snapshot root: it holds
+the transactions `pre` and its ts is the last of them; `rest` is everything committed later — the transactions the
+live tree indexed WHILE the dump was written (lost by the restart) and those committed afterwards.  The index
+restarted by `CompactIndex` (`compactRestart`: the dump with the ts its TIMESTAMP file claims = `snap.Ts()`)
+followed by the resumed indexer — any grouping of `pending ts log` into bulks the code can form — never fails and
+holds exactly the whole log again, whatever ts `liveTs` the live tree had reached. -/
+theorem compaction_restart_preserves_refinement (sp : Spec) (env : Env) (B : Nat) (pre rest : List Tx)
+    (dump : Tree IVal) (liveTs : Nat) (bulks : List (List Tx))
+    (href : Refines dump sp env pre) (hts : dump.ts = lastId pre)
+    (hids : IdsAbove 0 (pre ++ rest)) (hok : ∀ tx ∈ rest, TxOk sp env tx)
+    (hb : BulksOf sp B bulks)
+    (hflat : bulks.flatten = pending (compactRestart dump liveTs).ts (pre ++ rest)) :
+    ∃ tr, runBulks sp env (compactRestart dump liveTs) bulks = .ok tr ∧ Refines tr sp env (pre ++ rest) ∧
+      tr.ts ≤ lastId (pre ++ rest) := by
+  have e : compactRestart dump liveTs = reopenDump dump dump.ts := rfl
+  rw [e] at hflat ⊢
+  exact CompactionAux.restart_refines sp env B pre rest dump dump.ts bulks href hts (Nat.le_refl _) hids hok hb hflat
+
+/-- the same for ANY claimed ts that does not exceed the dump's (`OpenWith` only ever raises the root's ts) -/
+theorem restart_preserves_refinement_of_claim_le (sp : Spec) (env : Env) (B : Nat) (pre rest : List Tx)
+    (dump : Tree IVal) (c : Nat) (bulks : List (List Tx))
+    (href : Refines dump sp env pre) (hts : dump.ts = lastId pre) (hc : c ≤ dump.ts)
+    (hids : IdsAbove 0 (pre ++ rest)) (hok : ∀ tx ∈ rest, TxOk sp env tx)
+    (hb : BulksOf sp B bulks)
+    (hflat : bulks.flatten = pending (reopenDump dump c).ts (pre ++ rest)) :
+    ∃ tr, runBulks sp env (reopenDump dump c) bulks = .ok tr ∧ Refines tr sp env (pre ++ rest) ∧
+      tr.ts ≤ lastId (pre ++ rest) :=
+  CompactionAux.restart_refines sp env B pre rest dump c bulks href hts hc hids hok hb hflat
+
+/-- **A dump that claims a later ts than the one it was taken at loses transactions for good** (the converse):
+with `c > dump.ts` — e.g. `c` = the ts of the live tree when the dump ended — the resumed indexer never fails
+either, but the tree it ends with holds the log WITHOUT the transactions `dump.ts < id ≤ c`; as soon as one of
+them has an indexable entry of this index the tree is not the log, and nothing is left to be indexed. -/
+theorem restart_with_overclaimed_ts_loses_transactions (sp : Spec) (env : Env) (B : Nat) (pre rest : List Tx)
+    (dump : Tree IVal) (c : Nat) (bulks : List (List Tx))
+    (href : Refines dump sp env pre) (hts : dump.ts = lastId pre) (hc : dump.ts < c)
+    (hids : IdsAbove 0 (pre ++ rest)) (hok : ∀ tx ∈ rest, TxOk sp env tx)
+    (hb : BulksOf sp B bulks)
+    (hflat : bulks.flatten = pending (reopenDump dump c).ts (pre ++ rest)) :
+    ∃ tr, runBulks sp env (reopenDump dump c) bulks = .ok tr ∧
+      Refines tr sp env (pre ++ rest.filter (fun tx => decide (c < tx.id))) ∧
+      ((∃ tx ∈ rest, tx.id ≤ c ∧ txEvents sp env tx ≠ []) → ¬ Refines tr sp env (pre ++ rest)) :=
+  CompactionAux.restart_overclaim sp env B pre rest dump c bulks href hts hc hids hok hb hflat
+
+/-- The places of tbtree.go / indexer.go the compaction model relies on read as the model says (extracted by
+`extract/c04.go`; a change there breaks this theorem): `Compact` snapshots `t.root` under the lock, `fullDump`
+names the TIMESTAMP file after `snap.Ts()` and writes `snap.Ts()` INTO it (`dumpTsFile` = the snapshot's ts, not the
+live tree's), `OpenWith` raises the reloaded root's ts to the file's value when that is larger (`reopenDump`), and
+`doIndexing` resumes with `indexSince(idx.index.Ts() + 1)` (`pending`). -/
+theorem compaction_facts_match_code :
+    Gen.C04.compactSnapshotRoot = "t.root" ∧
+    Gen.C04.fullDumpTsFileId = "snap.Ts()" ∧
+    Gen.C04.fullDumpTsFileValue = "snap.Ts()" ∧
+    Gen.C04.openWithTsFileRule = "ts := t.readTsFile(); ts > t.root.ts() => setTs(ts)" ∧
+    Gen.C04.doIndexingLastIndexed = "idx.index.Ts()" ∧
+    Gen.C04.doIndexingResumeFrom = "lastIndexedTx + 1" ∧
+    (∀ snapTs liveTs, dumpTsFile snapTs liveTs = snapTs) ∧
+    (∀ dump c, (reopenDump dump c).ts = max dump.ts c ∧ (reopenDump dump c).m = dump.m) ∧
+    (∀ ts log, pending ts log = log.filter (fun tx => decide (ts + 1 ≤ tx.id))) :=
+  ⟨by decide, by decide, by decide, by decide, by decide, by decide, fun _ _ => rfl,
+    fun dump c => ⟨CompactionAux.reopenDump_ts dump c, by unfold reopenDump; split <;> rfl⟩,
+    fun _ _ => rfl⟩
+
 /-! ### facts regenerated from /repo at every run -/
 
 /-- name of a filter in key_reader.go -/
@@ -291,6 +363,18 @@ open InjectiveAux in
 /-- `MaxTxEntries = 2`, `MaxBulkSize = 1`: a transaction that updates two rows of an injective index needs four
 KVTs (the former panic) — they fit into `kvsLen 2 1 = 4` slots -/
 example : ∃ tr, indexBulkCap (kvsLen 2 1) spW (envOfLog spW.srcPrefix txsK) {} [txsK[1]] = .ok tr := ⟨_, rfl⟩
+
+/-- compaction: the dump is taken after tx 1, the live tree indexes tx 2 meanwhile, tx 3 is committed afterwards.
+Restarted with the ts the code claims (`compactRestart`) the indexer re-reads txs 2, 3 and the index is the log;
+restarted with the live tree's ts (2) it only reads tx 3 and key 1 keeps its version of tx 1 for good. -/
+example : ∃ dump, runBulks ex_sp ex_env {} [[ex_txs[0]]] = .ok dump ∧ dump.ts = 1 ∧
+    pending (compactRestart dump 2).ts ex_txs = [ex_txs[1], ex_txs[2]] ∧
+    (∃ tr, runBulks ex_sp ex_env (compactRestart dump 2) [[ex_txs[1]], [ex_txs[2]]] = .ok tr ∧
+      versions tr.m [1] = LogView ex_sp ex_env ex_txs [1]) ∧
+    pending (reopenDump dump 2).ts ex_txs = [ex_txs[2]] ∧
+    (∃ tr, runBulks ex_sp ex_env (reopenDump dump 2) [[ex_txs[2]]] = .ok tr ∧ tr.ts = 3 ∧
+      versions tr.m [1] ≠ LogView ex_sp ex_env ex_txs [1] ∧ (versions tr.m [1]).length = 1) := by
+  refine ⟨_, rfl, rfl, rfl, ⟨_, rfl, by decide⟩, rfl, ⟨_, rfl, rfl, by decide, by decide⟩⟩
 
 /-- `Snapshot.History(offset = 1, ascending, limit = 2)` over three versions reports revisions 2, 3 -/
 example : ∃ refs, Vers.snapHistory 1 false 2 [(3, (⟨0, [], {}⟩ : IVal)), (2, ⟨0, [], {}⟩), (1, ⟨0, [], {}⟩)] = .ok (refs, 3) ∧
